@@ -16,7 +16,7 @@ if __name__ == "__main__":
                 print(eng.verify(short))
                 if module.contracts[short].get("relational"):
                     from pvc import relational
-                    obls += relational.pair_obligations(eng, short, module.contracts[short]["relational"])
+                    obls += relational.pair_obligations(eng, short, module.contracts[short]["relational"], converse=module.contracts[short].get("relational_converse"))
         obls += eng.obls
         for n in eng.notes: print("   note", n)
     if dump:
